@@ -75,7 +75,7 @@ def split_sig(sig):
     return out
 
 
-def fatal_ok(p, st0, exceptions):
+def fatal_ok(p, st0, exceptions, state_matters=True):
     """path ends in FATAL line then exit(1) / throw int 1, no store into pre-existing memory before it"""
     ev = p['st'].events
     couts = [e[1] for e in ev if e[0] == 'cout' and isinstance(e[1], str)]
@@ -97,7 +97,8 @@ def fatal_ok(p, st0, exceptions):
     if fatal_idx > term_idx:
         return False, 'FATAL line after termination'
     wr = ext_writes(p, st0)
-    if wr:
+    if wr and state_matters:
+        # (in the exit build the process is gone after the failure: only the exception build can observe the state)
         return False, 'stores into pre-existing memory before the failure: %r' % (wr[:3],)
     if any(e[0] == 'null-deref' for e in ev):
         return False, 'null pointer dereferenced'
@@ -168,23 +169,33 @@ def body(chk):
             BADNAME = tm.sym('BADNAME', 'S')
             # only the path on which the (symbolic) normalised name matches no catalogue entry is the subject here:
             # directed exploration takes the 'no match' branch of every comparison first and stops after that path
-            paths = ex.explore(st, lambda ex: ex.call(finit, [S.new_string(ex, H), S.new_string(ex, BADNAME)]), 128, default=False, limit=1)
+            def directed(cond):
+                # every comparison of the (symbolic) normalised name with a catalogue name fails; comparisons of the handle fork normally,
+                # so both 'H is a new handle' and 'H is an existing handle' are covered
+                if any(t.op == 'uf' and t.p == 'masa_map' for t in tm.topo([cond])):
+                    return False
+                return None
+            paths = ex.explore(st, lambda ex: ex.call(finit, [S.new_string(ex, H), S.new_string(ex, BADNAME)]), 128, default=directed)
             bad, why, n_unknown = [], '', 0
             for p in paths:
                 if p['terminal'] is None and p['error'] is None:
                     continue            # the symbolic name matched a catalogue name: C12/C13
                 n_unknown += 1
-                ok, why_ = fatal_ok(p, st, exceptions)
+                ok, why_ = fatal_ok(p, st, exceptions, state_matters=exceptions)
                 p1, e1 = R.snapshot(w, p['st'], scalar)
-                if not ok or p1 != p0 or e1 != e0:
+                if not ok or (exceptions and (p1 != p0 or e1 != e0)):
                     bad.append(pc_term(p['pc']))
                     why = why_ or 'registry changed'
             if n_unknown == 0:
                 bad.append(tm.TRUE)
             chk.paths_clean('init-unknown-name[%s]<%s>' % (bname, scalar), bad, key='init-unknown-name', family='unknown-name',
                             sample=dict(obligation='masa_init(H, BADNAME)', paths=len(paths), why=why),
-                            replay=fatal_replay(chk, scalar, exceptions, ['masa_init<Scalar>("a","euler_2d");', 'masa_init<Scalar>("b","no such solution");'], 'init of unknown solution: ' + why,
-                                                after=['std::string s; masa_get_name<Scalar>(&s); printf("\\nR after %s\\n", s.c_str());'], expect_after='R after euler_2d'))
+                            replay=fatal_replay(chk, scalar, exceptions,
+                                                ['masa_init<Scalar>("a","euler_2d"); masa_set_param<Scalar>("L",(Scalar)3.5); masa_init<Scalar>("b","euler_1d");',
+                                                 'masa_init<Scalar>("a","no such solution");'], 'init of unknown solution on an existing handle: ' + why,
+                                                after=['std::string s; masa_get_name<Scalar>(&s); printf("\\nR after %s\\n", s.c_str());',
+                                                       'int ok2=0; try { masa_select_mms<Scalar>("a"); masa_get_name<Scalar>(&s); ok2 = (s=="euler_2d") && masa_get_param<Scalar>("L")==(Scalar)3.5; } catch(int e) { ok2=0; }',
+                                                       'printf("R a_intact %d\\n", ok2);'], expect_after=['R after euler_1d', 'R a_intact 1']))
     chk.solve_all()
 
 
@@ -199,7 +210,7 @@ def fatal_replay(chk, scalar, exceptions, lines, why, after=None, expect_after=N
         if exceptions:
             lb = Lib(chk.scratch, extra=('-DMASA_EXCEPTIONS',))
             body = '%s\n int caught=0; try { %s } catch(int e) { caught = (e==1); }\n printf("\\nR caught %%d\\n", caught);\n%s' % ('\n'.join(pre), bad, '\n'.join(after or []))
-            expect = ['MASA FATAL ERROR', 'R caught 1'] + ([expect_after] if expect_after else [])
+            expect = ['MASA FATAL ERROR', 'R caught 1'] + (list(expect_after) if isinstance(expect_after, (list, tuple)) else ([expect_after] if expect_after else []))
             want_rc = 0
         else:
             lb = chk.lib()
